@@ -78,7 +78,8 @@ def replay(v, ex, vectors, rnd, places=None, tag=""):
         pls = places if places is not None else [("E", 0), ("S", rnd.randrange(16))] + ([("R", 0)] if reads else [])
         for place, off in pls:
             cmds.append(cmd(vec, place, off)); meta.append((vec, "%splacement %s+%d" % (tag, place, off)))
-        if vec["op"] == "putdata" and vec["dt"] in ELEM and vec["arg"] and vec.get("dataat"):
+        if vec["op"] == "putdata" and vec["dt"] in ELEM and vec["arg"] and vec.get("dataat") and (vec["dataat"] + 2) % ELEM[vec["dt"]] == 0:
+            # (only where the element area is aligned for the element type: the API takes a typed pointer)
             # zero-copy use: the host-order samples already lie where the message wants them and are converted in place
             # (source pointer = destination of the element area; each element must be read as a whole before it is stored)
             cmds.append(cmd(vec, "S", 0, srcoff=vec["dataat"] + 2)); meta.append((vec, "%ssource in place (inside the message)" % tag))
